@@ -3,6 +3,7 @@ package main
 // C13 — SM2 key exchange (GM/T 0003.3)
 
 import (
+	"fmt"
 	"go/token"
 	"go/types"
 	"strings"
@@ -59,6 +60,7 @@ func checkC13(c *Ctx) {
 		"K-C13-formulas: t = (d + x̄·r) mod n with x̄ from the caller's ephemeral x; V = [t](P_peer + [x̄_peer]R_peer); K = KDF(klen, pad32(xV)||pad32(yV)||ZA||ZB); ZA over the initiator's key and ida, ZB over the responder's key and idb in both roles",
 		"T-C13-order: the inner hash is over xV||ZA||ZB||x1||y1||x2||y2 with (x1,y1) the initiator's ephemeral point in both roles, all coordinates 32 bytes; S1 = H(0x02||yV||h), S2 = H(0x03||yV||h)",
 		"K-C13-xhat: x̄ = 2^127 + (x mod 2^127)",
+		"G-HASH-reuse: in package sm2 no Write on a locally created hash object is reachable from a Sum on it unless a Reset of the object cuts every path between them",
 		"K-C02-kdf: the KDF that turns xV||yV||ZA||ZB into the shared key is SM3(Z||ct), ct = 1,2,… with the hash reset per block (the rule of C02, evaluated here too because the agreed key beyond 32 bytes depends on it)")
 	c.NotDec = append(c.NotDec, "numerical equality of the derived keys with GM/T 0003.3 (curve arithmetic is C03, SM3 is C04)")
 	c13Inputs(c)
@@ -348,6 +350,8 @@ func checkC13(c *Ctx) {
 	_ = st
 	c03IsOnCurve(c, "P-C03-formulas")
 	fixedWidthHashed(c, "P-WIDTH-hash")
+	n := hashReuse(c, "G-HASH-reuse", []string{"sm2"})
+	c.Holds("G-HASH-reuse", "sm2", "no hash object is written to again after Sum without a Reset", fmt.Sprintf("%d Sum→Write pairs on locally created hash objects inspected", n), token.NoPos)
 }
 
 func c13XHat(c *Ctx) {
